@@ -36,3 +36,43 @@ Proof. exists 29, 8, 20, 8. repeat split; try lia. vm_compute. discriminate. Qed
 Lemma smooth_right_edge_needs_width :
   exists wib last b, 0 <= b <= last /\ last < wib /\ smooth_cols 0 (lbc_of false wib last) b <> full_cols wib b.
 Proof. exists 29, 14, 14. repeat split; try lia. vm_compute. discriminate. Qed.
+
+(* ---------- TurboJPEG destination rows ---------- *)
+From LJT Require Import model.Partial.
+
+Lemma zseq_snoc a n : zseq a (S n) = zseq a n ++ [a + Z.of_nat n].
+Proof.
+  revert a. induction n as [|n IH]; intros a.
+  - cbn. f_equal. lia.
+  - change (zseq a (S (S n))) with (a :: zseq (a + 1) (S n)). rewrite IH. cbn [zseq app]. do 3 f_equal. lia.
+Qed.
+
+Lemma map_sub_rev n : forall a c,
+  map (fun i => c - i) (zseq a n) = rev (zseq (c - a - Z.of_nat n + 1) n).
+Proof.
+  induction n as [|n IH]; intros a c; [reflexivity|].
+  rewrite zseq_snoc, map_app, IH. cbn [map].
+  replace (c - a - Z.of_nat (S n) + 1) with (c - a - Z.of_nat n) by lia.
+  change (zseq (c - a - Z.of_nat n) (S n)) with ((c - a - Z.of_nat n) :: zseq (c - a - Z.of_nat n + 1) n).
+  cbn [rev]. do 2 f_equal. lia.
+Qed.
+
+(* bottom-up delivery is the reversal of top-down delivery inside the same h rows of the destination *)
+Lemma tj_bottomup_is_reversal outh h :
+  0 <= h ->
+  map (tj_row_anchor true gen_tj_bottomup_anchor_cropped outh h) (zseq 0 (Z.to_nat h)) =
+  rev (map (tj_row_anchor false gen_tj_bottomup_anchor_cropped outh h) (zseq 0 (Z.to_nat h))) /\
+  (forall i, 0 <= i < h -> 0 <= tj_row_anchor true gen_tj_bottomup_anchor_cropped outh h i < h).
+Proof.
+  intros Hh. change gen_tj_bottomup_anchor_cropped with true. unfold tj_row_anchor. split.
+  - rewrite map_id.
+    rewrite (map_ext _ (fun i => (h - 1) - i)) by (intros; lia).
+    rewrite map_sub_rev. do 2 f_equal. lia.
+  - intros i Hi. lia.
+Qed.
+
+(* anchored at the scaled image height instead (shape of seeded change C08-6): a region shorter than the image
+   is written outside its pitch * h extent *)
+Lemma tj_bottomup_outh_refuted :
+  exists outh h i, 0 <= i < h /\ h < outh /\ ~ (0 <= tj_row_anchor true false outh h i < h).
+Proof. exists 120, 40, 0. unfold tj_row_anchor. lia. Qed.
